@@ -435,6 +435,10 @@ def proto_texts(P):
                     L.append('  rpc %s (%s%s) returns (%s%s);' % (mn, cs_, P.proto_ref(P.msg_full(a)), ss_, P.proto_ref(P.msg_full(b))))
                 L.append('}')
         out[fname] = '\n'.join(L) + '\n'
+    if getattr(P, 'forwarder', False) and 'dep.proto' in out:
+        # case.proto reaches dep.proto only through a file that declares nothing itself and re-exports it (seeded change S139)
+        out['case.proto'] = out['case.proto'].replace('import "dep.proto";', 'import "fwd.proto";')
+        out['fwd.proto'] = 'syntax = "proto2";\nimport public "dep.proto";\n'
     return out
 
 
@@ -615,6 +619,11 @@ def corpus_pfiles():
         P.pkg = ['t', 'other.pkg']
         P.cpkg = [None, 'Y'] if variant == 0 else ['Xc', None]
         out.append(('depenum%d' % variant, P))
+        if variant == 0:
+            import copy
+            Q = copy.deepcopy(P)
+            Q.forwarder = True
+            out.append(('depfwd', Q))
     # two files of DIFFERENT syntax generated in one protoc run, each importing / imported (seeded change S80: nothing the
     # generator learns about one file may leak into the next)
     for variant in (0, 1):
